@@ -784,7 +784,12 @@ fn run_sig(text: &str, tree: &T) -> Outcome {
                     }
                     Ok(s)
                 }
-                Err(_) => Err(()),
+                Err(e) => {
+                    // the object IS representable (try_from_json_map accepted it): dropping two keys and
+                    // serialising it cannot fail, whatever its size
+                    t3.push(format!("canonical_json refused a representable object ({} bytes of input): {e}", text.len()));
+                    Err(())
+                }
             },
             Err(_) => Err(()),
         },
@@ -971,6 +976,22 @@ fn fixed_trees() -> Vec<(T, bool)> {
         v.push((o(vec![("n", T::Num(num_other(t)))]), true));
         v.push((T::Num(num_other(t)), true));
     }
+    // canonical JSON has no size limit (the 65 535-byte limit belongs to event hashing): objects whose
+    // canonical form is just below, at and above 64 KiB, with and without signatures/unsigned
+    for len in [65_500usize, 65_536, 70_000] {
+        let big = "x".repeat(len);
+        v.push((o(vec![("body", s(&big)), ("a", i(1))]), false));
+        v.push((o(vec![("body", s(&big)), ("signatures", o(vec![("h", o(vec![("ed25519:1", s("c2ln"))]))])), ("unsigned", o(vec![("age", i(1))]))]), false));
+    }
+    // the C1 controls and DEL are not escaped by canonical JSON (only the C0 controls, quote and backslash are)
+    for c in [0x7fu32, 0x80, 0x85, 0x9f, 0xa0] {
+        let ch = char::from_u32(c).unwrap().to_string();
+        v.push((o(vec![(ch.as_str(), s(&ch)), ("z", T::Arr(vec![s(&format!("x{ch}y"))]))]), false));
+    }
+    // objects whose smallest keys are the ones signing strips
+    v.push((o(vec![("signatures", o(vec![])), ("token", s("t")), ("usage", i(1)), ("user_id", s("@a:h"))]), false));
+    v.push((o(vec![("unsigned", o(vec![("age", i(1))])), ("unsigned2", i(2)), ("日本", i(3))]), false));
+    v.push((o(vec![("signatures", o(vec![])), ("unsigned", o(vec![]))]), false));
     // non-object top level values, empty containers, signatures/unsigned
     v.push((T::Null, false));
     v.push((T::Bool(true), false));
